@@ -187,7 +187,7 @@ func findMatchingRule(rules []CORSRule, origin string, method string, requestedH
 
 func matchOrigin(allowedOrigins []string, origin string) (string, bool) {
 	for _, allowedOrigin := range allowedOrigins {
-		if wildcardMatch(strings.ToLower(allowedOrigin), strings.ToLower(origin)) {
+		if wildcardMatch(asciiLower(allowedOrigin), asciiLower(origin)) {
 			return allowedOrigin, true
 		}
 	}
@@ -215,7 +215,7 @@ func matchRequestedHeaders(allowedHeaders []string, requestedHeaders []string) b
 	for _, requestedHeader := range requestedHeaders {
 		matched := false
 		for _, allowedHeader := range allowedHeaders {
-			if wildcardMatch(strings.ToLower(allowedHeader), strings.ToLower(requestedHeader)) {
+			if wildcardMatch(asciiLower(allowedHeader), asciiLower(requestedHeader)) {
 				matched = true
 				break
 			}
@@ -247,7 +247,7 @@ func parseHeaderList(value string) []string {
 	parts := strings.Split(value, ",")
 	result := make([]string, 0, len(parts))
 	for _, part := range parts {
-		trimmed := strings.TrimSpace(strings.ToLower(part))
+		trimmed := strings.TrimSpace(asciiLower(part))
 		if trimmed != "" {
 			result = append(result, trimmed)
 		}
@@ -314,4 +314,27 @@ func appendVary(headers http.Header, varyValue string) {
 		}
 	}
 	headers.Add(varyHeader, varyValue)
+}
+
+// asciiLower lower-cases ASCII letters only. Origins and header names compare
+// ASCII-case-insensitively; Unicode case folding (e.g. U+212A KELVIN SIGN to
+// "k") would match look-alike values no rule allows.
+func asciiLower(value string) string {
+	hasUpper := false
+	for i := 0; i < len(value); i++ {
+		if c := value[i]; c >= 'A' && c <= 'Z' {
+			hasUpper = true
+			break
+		}
+	}
+	if !hasUpper {
+		return value
+	}
+	lowered := []byte(value)
+	for i, c := range lowered {
+		if c >= 'A' && c <= 'Z' {
+			lowered[i] = c + ('a' - 'A')
+		}
+	}
+	return string(lowered)
 }
